@@ -9,7 +9,7 @@ COMMON_ASSUME = [
 def corr(families, nq=300, nt=4000, erase=False):
     return {"families": families, "n_quick": nq, "n_thorough": nt, "erase": erase}
 
-HOOK_COMMITS = ["c29540b"]
+HOOK_COMMITS = ["c29540b", "70d7802"]
 
 PROOF_NOTE = ("Trusted: Lean 4.33 kernel with axioms {propext, Classical.choice, Quot.sound} (audited per theorem by #print axioms); "
               "the extractor; the correspondence harness and its generators; Tokio's primitives as modelled (DESIGN.md §3.7, §6). "
@@ -191,6 +191,30 @@ PROPS.update({
         "corr": corr(["mixed"], nq=60, nt=500),
         "extract_items": ["has_path", "format_cycle_path", "ask_protocol"],
         "assumptions": COMMON_ASSUME,
+    },
+})
+
+PROPS.update({
+    "C16": {
+        "level": "proof",
+        "text": "Kernel-checked: forwarders_verbatim (the table of all 28 trait-object methods, read from src/handler.rs and src/actor_control.rs on every run, forwards each method to the inherent method of the same name with the same arguments, strong traits implemented by ActorRef only, weak traits by ActorWeak only), conversions_keep_strength (every From conversion boxes the value itself or its clone: strong->strong, weak->weak), clone_keeps_strength / keeps_alive (model). Since each erased operation IS the direct one, all C01-C15 theorems transfer. Real side: every seeded script is run twice against the same model, once on ActorRef/ActorWeak directly and once with every operation (tell/ask/timeouts/stop/kill/clone/downgrade/upgrade/is_alive/identity) routed through a trait object chosen per operation (TellHandler, AskHandler, ActorControl, Weak*; via From<&ActorRef>, From<ActorRef>, clone_boxed, as_control, as_weak_control); the two runs must both equal the model's run step by step, hence each other; identity/upgrade/downgrade mismatches are logged as events that the model never produces.",
+        "note": PROOF_NOTE,
+        "technique": "Lean 4 theorems over the forwarder table extracted from the source + double correspondence (direct and type-erased) against one model",
+        "monitors": ["C01", "C02", "C03", "C07", "C11", "C13"],
+        "corr": corr(["mixed", "handles", "timeouts", "burst"], nq=300, nt=3000, erase="both"),
+        "extract_items": ["forwarders", "conversions", "handle_algebra"],
+        "assumptions": COMMON_ASSUME + ["dyn dispatch and Box are transparent (Rust semantics)"],
+    },
+    "C17": {
+        "level": "partial",
+        "text": "Kernel-checked: aliases (tell_blocking/ask_blocking delegate to blocking_tell/blocking_ask and the dispatchers pick the timeout/no-timeout implementation: extracted), blocking_same_paths (blocking variants build the same envelope and use the same sender as tell/ask; timeout variants run tell/ask under tokio::time::timeout on a helper thread with a timer runtime: extracted), blocking_inherits (every label-list theorem covers callers on any thread: at-most-once, rejected-never, reply integrity, dead letters). Real side (multi-thread runtime, real clock): 1/4/16 plain threads issuing all six blocking forms against a live actor (delivery exactly once, per-thread order, reply integrity, aliases ignore the timeout); deadlines against a slow actor with a full mailbox (not early, not later than deadline + 300 ms); stopped actor (every variant fails at once with Send and a dead letter); timeout variants called from inside a runtime context (no panic). NOT proved: the wall-clock bound itself (it is a property of the OS scheduler, thread spawn and Tokio timer; checked with slack on real runs only).",
+        "note": PROOF_NOTE + " The blocking API needs real threads; the step-by-step correspondence (single-threaded, paused clock) cannot run it, so the real side is oracle-only.",
+        "technique": "Lean 4 theorems on the model + extracted send-path equalities; real-thread stress runs under property oracles",
+        "monitors": ["C01", "C03", "C13"],
+        "extra": ["stress"],
+        "corr": corr(["timeouts", "mixed"], nq=150, nt=1500),
+        "extract_items": ["blocking_dispatch", "send_paths", "timeout_wrappers", "ask_wait_watches_closed", "blocking_ask_wait_watches_closed", "dead_letter_census"],
+        "assumptions": COMMON_ASSUME + ["OS thread scheduling delays below 300 ms in the deadline oracle"],
     },
 })
 
